@@ -493,6 +493,22 @@ fn c14_scenarios(tier: Tier) -> Vec<Scenario> {
             steps: vec![Step::Register(0), Step::Down(0), Step::Revoke(1), Step::Script(0, add.clone(), vec![k.clone()]), Step::Up(0), Step::Settle, Step::Revoke(2), Step::Settle],
         });
     }
+    // the same replies from non-initial states: to a repeated notification of a commitment the tower has
+    // already acknowledged, resp. already rejected
+    for k in add_reply_kinds(tier) {
+        v.push(Scenario {
+            name: format!("repeat-after-accept:{}", label(&k)),
+            towers: 1,
+            opts: RetryOpts::default(),
+            steps: vec![Step::Register(0), Step::Revoke(1), Step::Settle, Step::Script(0, add.clone(), vec![k.clone()]), Step::Revoke(1), Step::Settle, Step::Revoke(2), Step::Settle],
+        });
+        v.push(Scenario {
+            name: format!("repeat-after-rejection:{}", label(&k)),
+            towers: 1,
+            opts: RetryOpts::default(),
+            steps: vec![Step::Register(0), Step::Script(0, add.clone(), vec![Reply::Reject(33), k.clone()]), Step::Revoke(1), Step::Settle, Step::Revoke(1), Step::Settle, Step::Revoke(2), Step::Settle],
+        });
+    }
     // a tower proven misbehaving stays so, also across a (valid) renewal of the subscription
     v.push(Scenario {
         name: "misbehaving-then-renewal".into(),
